@@ -2,6 +2,7 @@ package main
 
 import (
 	"fmt"
+	"os"
 	"path/filepath"
 	"reflect"
 	"sort"
@@ -110,9 +111,10 @@ type violation struct {
 // outcome of one crash case.
 type outcome struct {
 	Case         kase
-	Class        string // coverage class: persisted heights at restart, heights after NewNode, verdict
-	WRec         int    // durable writes of the recovery run (first restart)
-	Restarted    bool   // the restarted node reached its dump
+	Class        string   // coverage class: persisted heights at restart, heights after NewNode, verdict
+	WRec         int      // durable writes of the recovery run (first restart)
+	RecSites     []string // their sites, in order
+	Restarted    bool     // the restarted node reached its dump
 	Inconclusive string
 	Violations   []*violation
 }
@@ -165,6 +167,13 @@ func (c *ctx) runCase(k kase, ref *reference) *outcome {
 func (c *ctx) runCaseOnce(k kase, ref *reference) (o *outcome, retry bool) {
 	o = &outcome{Case: k}
 	dir := c.caseDir(k)
+	defer func() {
+		// keep the directories of violating cases for inspection (the whole work
+		// directory is removed when the check ends)
+		if len(o.Violations) == 0 {
+			os.RemoveAll(dir)
+		}
+	}()
 	ndir := filepath.Join(dir, "n")
 	atomic.AddInt64(&c.crashRuns, 1)
 	inconclusive := func(why string) (*outcome, bool) {
@@ -230,7 +239,15 @@ func (c *ctx) runCaseOnce(k kase, ref *reference) (o *outcome, retry bool) {
 		p.last("START", &start)
 		if secondCrash {
 			if p.Exit == 86 {
-				continue // died during recovery as planned; restart again
+				// died during recovery as planned; its write log must be a prefix of
+				// the recovery log of the first-level case (k)
+				got, crashed := readWriteLog(filepath.Join(dir, "w2_1.log"))
+				want := c.recoveryLog(k, ref)
+				if !crashed || len(got) != k.K2 || len(want) < k.K2 || !equalStrings(got, want[:k.K2]) {
+					o.Inconclusive = "recovery-write-log-not-a-prefix-of-first-level-log"
+					return o, true
+				}
+				continue // restart again
 			}
 			if p.Dumped {
 				// the recovery run was shorter than W_rec(k) measured before
@@ -251,6 +268,10 @@ func (c *ctx) runCaseOnce(k kase, ref *reference) (o *outcome, retry bool) {
 	}
 	if last.last("RECOVERED", &rec) && k.K2 == 0 {
 		o.WRec = rec.Writes
+		sites, _ := readWriteLog(filepath.Join(dir, "w2_1.log"))
+		if len(sites) >= rec.Writes {
+			o.RecSites = sites[:rec.Writes]
+		}
 	}
 
 	if !last.Dumped {
@@ -271,6 +292,9 @@ func (c *ctx) runCaseOnce(k kase, ref *reference) (o *outcome, retry bool) {
 				Detail: fmt.Sprintf("%s: restarted node ran for %s (its own clock) without committing a block; last lines %v; round state %s", k, stallLimit, lastKw(last, 6), head(stall.RoundState, 300)),
 			})
 			return o, false
+		}
+		if last.Exit == 3 {
+			return inconclusive("vnode-internal: " + tail(strings.TrimSpace(last.Stderr), 200))
 		}
 		line, site := parsePanic(last.Stderr)
 		kind := "restart-panic"
@@ -294,24 +318,41 @@ func (c *ctx) runCaseOnce(k kase, ref *reference) (o *outcome, retry bool) {
 		return o, false
 	}
 	o.Restarted = true
+	if k.K2 == 0 && o.RecSites != nil {
+		c.refMu.Lock()
+		c.recLogs[fmt.Sprintf("%s/%d", k.Workload, k.K)] = o.RecSites
+		c.refMu.Unlock()
+	}
 
 	d, err := readDump(filepath.Join(dir, "dump.json"))
 	if err != nil {
 		return inconclusive("dump unreadable: " + err.Error())
 	}
-	rx, rp := c.reexecRun(ndir, filepath.Join(dir, "re"), nil)
+	// ReceiptsHash depends on how many KV records the PROCESS has applied (C05
+	// finding): if the single-lifetime re-execution misses only receipts hashes,
+	// it is repeated with the application re-opened where the node was restarted.
+	// (Second level, workloads with KV transactions: the lifetime-matched
+	// re-execution runs first and, when it reproduces every hash, is the only one —
+	// the known C05 class is established by the first level.)
+	var rx, rxLife *reexecRec
+	var rp *procResult
+	if k.K2 > 0 && wlClass(k.Workload) == "with-kv" {
+		rx, rp = c.reexecRun(ndir, filepath.Join(dir, "re2"), lifetimes)
+		if rx != nil && (len(rx.Mismatches) > 0 || rx.Error != "") {
+			rxLife = rx
+			rx, rp = c.reexecRun(ndir, filepath.Join(dir, "re"), nil)
+		}
+	} else {
+		rx, rp = c.reexecRun(ndir, filepath.Join(dir, "re"), nil)
+		if rx != nil && len(rx.Mismatches) > 0 && onlyField(rx.Mismatches, "ReceiptsHash") {
+			rxLife, _ = c.reexecRun(ndir, filepath.Join(dir, "re2"), lifetimes)
+		}
+	}
 	if rx == nil {
 		if rp.TimedOut {
 			return inconclusive("deadline:reexec")
 		}
 		return inconclusive("reexec failed: " + tail(rp.Stderr, 300))
-	}
-	// ReceiptsHash depends on how many KV records the PROCESS has applied (C05
-	// finding): if the single-lifetime re-execution misses only receipts hashes,
-	// repeat it with the application re-opened where the node was restarted.
-	var rxLife *reexecRec
-	if len(rx.Mismatches) > 0 && onlyField(rx.Mismatches, "ReceiptsHash") {
-		rxLife, _ = c.reexecRun(ndir, filepath.Join(dir, "re2"), lifetimes)
 	}
 	o.Violations = c.evaluate(k, ref, peeks, preCommits, d, rx, rxLife)
 	if len(o.Violations) == 0 {
@@ -325,6 +366,21 @@ func (c *ctx) runCaseOnce(k kase, ref *reference) (o *outcome, retry bool) {
 		o.Class += " → " + strings.Join(uniqStrings(ks), "+")
 	}
 	return o, false
+}
+
+// recoveryLog returns the write sites of the recovery run of the first-level
+// case (workload, k); it runs that case if it has not been run in this process
+// (replay of a second-level case).
+func (c *ctx) recoveryLog(k kase, ref *reference) []string {
+	key := fmt.Sprintf("%s/%d", k.Workload, k.K)
+	c.refMu.Lock()
+	l, ok := c.recLogs[key]
+	c.refMu.Unlock()
+	if ok {
+		return l
+	}
+	o := c.runCase(kase{Workload: k.Workload, K: k.K}, ref)
+	return o.RecSites
 }
 
 func wlClass(kind string) string {
@@ -428,9 +484,6 @@ func (c *ctx) evaluate(k kase, ref *reference, peeks []*inspectRec, preCommits [
 			add("block-wrong", "block-store", fmt.Sprintf("block %d: meta hash %s, parts hash to %s", h, b.MetaHash, b.BlockHash))
 		case i > 0 && in.Blocks[i-1].Readable && b.LastBlockID != in.Blocks[i-1].BlockHash:
 			add("chain-broken", "block-store", fmt.Sprintf("block %d names %s as its predecessor, block %d hashes to %s", h, b.LastBlockID, h-1, in.Blocks[i-1].BlockHash))
-		}
-		if i < len(in.SeenCommit) && !in.SeenCommit[i] && h == in.StoreHeight {
-			add("block-wrong", "block-store-seen-commit", fmt.Sprintf("no seen commit for the top block %d", h))
 		}
 	}
 	// the running node served the same bytes
